@@ -401,6 +401,18 @@ def c16(idx: Index, rep: Report, tier: str) -> None:
         if m is None:
             raise AnalysisError(f"anchor vanished: ExpressionManager.{name}")
         passed = {norm(k.value) for c in walk_no_nested(m.node) if isinstance(c, ast.Call) and call_name(c) == "create_node" for k in c.keywords if k.arg == "args"}
+        # the tail "one child -> itself, else create_node" may be a private helper of the manager: what is handed to
+        # the helper for the parameter it gives to create_node(args=…) counts as the children
+        for c in walk_no_nested(m.node):
+            if isinstance(c, ast.Call) and isinstance(c.func, ast.Attribute) and norm(c.func.value) == "self" and c.func.attr.startswith("_") and c.func.attr in em.methods:
+                h = em.methods[c.func.attr]
+                hp = [p_ for p_ in h.params() if p_ != "self"]
+                harg = {p_: norm(a) for p_, a in zip(hp, c.args)}
+                for hc in walk_no_nested(h.node):
+                    if isinstance(hc, ast.Call) and call_name(hc) == "create_node":
+                        for k in hc.keywords:
+                            if k.arg == "args" and norm(k.value) in harg:
+                                passed.add(harg[norm(k.value)])
         lens = {norm(c.args[0]) for t in walk_no_nested(m.node) if isinstance(t, ast.Compare) for c in [t.left] if isinstance(c, ast.Call) and call_name(c) == "len" and c.args}
         ok = bool(passed) and lens <= passed
         rep.check(ok, rule2, f"{name}: the 0/1-argument tests look at the tuple that becomes the children", m.loc(), construct=f"len() of {sorted(lens)}; children {sorted(passed)}", detail="" if ok else "the arity is tested on the raw *args: Plus([]) has one raw argument and zero children, so a childless node is built instead of the documented constant", function=m.qualname)
